@@ -48,6 +48,12 @@ def _call(args: tuple) -> dict[str, Any]:
         r = {"status": "timeout", "what": f"no answer within {TASK_TIMEOUT}s", "where": str(e)[-1200:], "program": prog}
     except Exception as e:  # noqa
         signal.alarm(0)
+        if "TaskTimeout" in f"{type(e).__name__}: {e}":
+            # the alarm fired inside a ctypes callback (z3), which wraps it into an ordinary exception
+            r = {"status": "timeout", "what": f"no answer within {TASK_TIMEOUT}s", "where": str(e)[-1200:], "program": prog}
+            r["name"] = name
+            r["wall_s"] = round(time.time() - t0, 3)
+            return r
         r = {"status": "harness_error", "what": f"{type(e).__name__}: {e}", "tb": traceback.format_exc()[-1500:]}
     r["name"] = name
     r["wall_s"] = round(time.time() - t0, 3)
